@@ -297,6 +297,9 @@ func (e *Expr) Text() string {
 	case KLit:
 		return "`" + strings.ReplaceAll(e.S, "`", "\\`") + "`"
 	case KStr:
+		if len(e.F) > 0 && e.F[0] {
+			return "'" + e.S + "'" // verbatim body (may look like an escape sequence)
+		}
 		return "'" + strings.ReplaceAll(strings.ReplaceAll(e.S, "\\", "\\\\"), "'", "\\'") + "'"
 	case KVar:
 		return "$" + e.S
@@ -1165,7 +1168,7 @@ func fallible(e *Expr) bool {
 		}
 	case KBin:
 		switch e.S {
-		case "+", "-", "*", "/", "%", "//":
+		case "+", "-", "*", "/", "%", "//", "×", "÷", "−":
 			return true
 		}
 	}
